@@ -644,6 +644,16 @@ func checkFloat(w *run.W, f float64, bits int, stratum string, mid bool) {
 		if err != nil || string(out) != s {
 			w.Violate("float-format-route", map[string]string{"type": typ, "route": "any"}, "Marshal(any(%v)) = %q, %v; AppendFloat gives %q", f, out, err, s)
 		}
+		// (a float64 passed directly has the static type float64; only a value HELD in an interface takes the untyped route)
+		out, err = json.Marshal([]any{f, map[string]any{"k": f}})
+		if want := "[" + s + `,{"k":` + s + "}]"; err != nil || string(out) != want {
+			w.Violate("float-format-route", map[string]string{"type": typ, "route": "held-in-any"}, "Marshal([]any{%v, map[string]any{k: %v}}) = %q, %v; want %q", f, f, out, err, want)
+		}
+		var held any = f
+		out, err = json.Marshal(&held, json.Deterministic(true))
+		if err != nil || string(out) != s {
+			w.Violate("float-format-route", map[string]string{"type": typ, "route": "pointer-to-any"}, "Marshal(&any(%v)) = %q, %v; AppendFloat gives %q", f, out, err, s)
+		}
 		var back any
 		if err := json.Unmarshal([]byte(s), &back); err != nil {
 			w.Violate("float-roundtrip", map[string]string{"type": typ, "route": "any"}, "Unmarshal(%s, &any): %v", s, err)
@@ -824,6 +834,22 @@ func checkConstructed(w *run.W, a *tokArgs) {
 			continue
 		}
 		one(jsontext.Float(f), "constructed-float", "", true, exactDecimal(f))
+		// Float32() of a token made from a float64: the correctly rounded float32 of the EXACT value held,
+		// a range error precisely when that rounding leaves the float32 range
+		g, gerr := jsontext.Float(f).Float32()
+		wf, over := ref.Float(exactDecimal(f), 32)
+		if f == 0 {
+			wf = f // (the decimal expansion carries no sign for zero)
+		}
+		wc := "ok"
+		if over {
+			wc = "range"
+		}
+		w.Count("token_float64_as_float32_"+wc, 1)
+		if c := errClass(gerr); c != wc || math.Float32bits(g) != math.Float32bits(float32(wf)) {
+			w.Violate("token-float", map[string]string{"origin": "constructed-float", "bits": "32", "want": wc, "got": c},
+				"Float(%v).Float32() = %v, %v; want %v class %s", f, g, gerr, float32(wf), wc)
+		}
 	}
 	for _, b := range a.F32 {
 		f := math.Float32frombits(b)
@@ -1253,7 +1279,10 @@ func generate(w *run.W) {
 				a.Uints = append(a.Uints, base+uint64(d))
 			}
 		}
-		for _, f := range []float64{0, 1, 0.5, 1.5, 1e15, 1e18, 1 << 53, 1 << 62, 1 << 63, 1 << 64, 1e19, 1e20, 1e21, 1e22, 1e300, 1e-300, 5e-324, math.MaxFloat64, 255, 256, 0.9999999999999999} {
+		for _, f := range []float64{0, 1, 0.5, 1.5, 1e15, 1e18, 1 << 53, 1 << 62, 1 << 63, 1 << 64, 1e19, 1e20, 1e21, 1e22, 1e300, 1e-300, 5e-324, math.MaxFloat64, 255, 256, 0.9999999999999999,
+			// the float32 bounds as float64 values: the largest float32, the half-way point to 2^128 below which a value still
+			// rounds to it, 2^128; the smallest float32 subnormal, half of it (rounds to 0 or to it), the smallest normal
+			math.MaxFloat32, math.MaxFloat32 + 1<<102, math.MaxFloat32 + 1<<103, 1 << 127 * 2.0, math.SmallestNonzeroFloat32, math.SmallestNonzeroFloat32 / 2, 1.1754943508222875e-38} {
 			for _, b := range around64(f, 40) {
 				a.Floats = append(a.Floats, b, b|1<<63)
 			}
